@@ -56,6 +56,9 @@ CHECKS = {
  "C02": dict(level="exploration", sec="3/C02", technique="exhaustive instruction-word grid x boundary-state grid; lifted IL under a reference IL interpreter compared with reference MIPS32/Power ISA interpreters written from the manuals",
    text="MIPS (both endiannesses): every accepted opcode/funct/regimm x register roles with all aliasing x immediates x shift amounts, every branch x 8 delay-slot instructions; PPC: every accepted primary/extended opcode x roles x immediates x rlwinm SH/MB/ME cube x BO/BI; x boundary values for sources, HI/LO, CR/CTR/LR/CA, four alignments. GPRs, HI/LO, LR/CTR/CR/CA, memory, next PC and trap<->intrinsic compared. Values outside the alphabets are not covered.",
    note="Trusted: harness MIPS32 and Power ISA reference interpreters (manual transcriptions), refil. UNPREDICTABLE results are masked/skipped; accepted words the reference does not model are counted."),
+ "C03": dict(level="exploration", sec="3/C03", technique="exhaustive instruction-word grid per A64 class x boundary-state grid; lifted IL under a reference IL interpreter compared with a reference A64 interpreter written from the Arm ARM pseudocode",
+   text="Every control-field value of add/sub immediate/shifted/extended, MOV aliases, all load/store addressing modes incl. pairs, literal, acquire/release and SIMD&FP register forms, all branch kinds; register fields over {0,1,2,30,31} with aliasing; boundary immediates; boundary values squared, all 16 NZCV valuations for conditional branches, both data endiannesses; X0-X30, SP, NZCV, V0-V31, memory, next PC compared (28 k accepted words, 0.95 M states in quick). Values outside the alphabets are not covered.",
+   note="Trusted: harness A64 reference interpreter (AddWithCarry, ShiftReg, ExtendReg, DecodeBitMasks), refil. CONSTRAINED UNPREDICTABLE forms skipped; accepted words the reference does not model are counted."),
 }
 NA = []
 def main():
